@@ -1,5 +1,105 @@
 import FGVerif.Driver.Shared
-/-! driver operations for C07 (stub: replaced by the property's own driver) -/
+import FGVerif.Model.C07
+/-!
+  driver operations for C07
+
+  `(C07 tree <mapper> (<cfg> …) <env seed> [<impl>])`
+     cfg  := (name patternStr <graph> (<anti-pattern graph> …))
+     impl := ((<parent idx> <child idx>) …) (<root idx> …))   -- positions in the given list, sorted
+           | (raised <Kind>)
+  reply `(ok <model> <spec_model> <spec_impl> <hasse> <matcherAgrees> <hypsOk> <noMutual> <pureEqE>)`
+     model   the hierarchy computed by the model with the matcher model's `is_subgroup`
+             (same form as impl; `(raised Assertion)` when the both-directions assertion fires)
+     hasse   the Hasse diagram of the true embedding order (links, roots)
+-/
 namespace C07
-def handle : List SExp → Option SExp := fun _ => none
+open SExp
+
+def asCfg : SExp → Option FGConfig
+  | .list [n, ps, g, aps] => do
+      pure { name := ← asStr n, patternStr := ← asStr ps, pattern := ← asGraph g,
+             antiPatterns := ← asList asGraph aps }
+  | _ => none
+
+def ofLinks (l : List (Nat × Nat)) : SExp := ofList (fun (p : Nat × Nat) => .list [ofNat p.1, ofNat p.2]) l
+def ofObs (o : List (Nat × Nat) × List Nat) : SExp := .list [ofLinks o.1, ofList ofNat o.2]
+def raisedAssertion : SExp := .list [.atom "raised", .atom "Assertion"]
+
+def asObs : SExp → Option (Option (List (Nat × Nat) × List Nat))
+  | .list [.atom "raised", _] => some none
+  | .list [ls, rs] => do
+      let ls ← asList (asPair asNat asNat) ls
+      let rs ← asList asNat rs
+      pure (some (ls, rs))
+  | _ => none
+
+/-- Boolean tables over the positions of the given list -/
+structure Tables where
+  n : Nat
+  embM : Array (Array Bool)     -- matcher: pattern i embeds into pattern j
+  antiM : Array (Array Bool)    -- matcher: some anti-pattern of i embeds into pattern j
+  embT : Array (Array Bool)     -- enumeration: pattern i embeds into pattern j
+  antiT : Array (Array Bool)
+  keys : Array (List Nat)
+
+def tab (t : Array (Array Bool)) (i j : Nat) : Bool := (t.getD i #[]).getD j false
+
+def mkTables (m : Perm.Mapper) (cfgs : List FGConfig) : Tables :=
+  let a := cfgs.toArray
+  let mk := fun (f : FGConfig → FGConfig → Bool) => a.map fun x => a.map fun y => f x y
+  { n := a.size
+    embM := mk fun x y => Sub.mapSubgraphToGraph y.pattern x.pattern m
+    antiM := mk fun x y => x.antiPatterns.any fun ap => Sub.mapSubgraphToGraph y.pattern ap m
+    embT := mk fun x y => embeds m x.pattern y.pattern
+    antiT := mk fun x y => x.antiPatterns.any fun ap => embeds m ap y.pattern
+    keys := a.map (·.key) }
+
+/-- `is_subgroup` on positions from the matcher tables (mirrors `C07.isSubgroupE`) -/
+def Tables.subE (t : Tables) (i j : Nat) : Option Bool :=
+  if tab t.embM i j then (if tab t.embM j i then none else some (!(tab t.antiM i j))) else some false
+
+def Tables.sub (t : Tables) (i j : Nat) : Bool := tab t.embM i j && !(tab t.embM j i) && !(tab t.antiM i j)
+def Tables.klt (t : Tables) (i j : Nat) : Bool := lexLt (t.keys.getD i []) (t.keys.getD j [])
+def Tables.trueSub (t : Tables) (i j : Nat) : Bool :=
+  i != j && tab t.embT i j && !(tab t.embT j i) && !(tab t.antiT i j)
+
+/-- links and roots of a built tree over the positions of the *given* list -/
+def observe (t : Tree Nat) : List (Nat × Nat) × List Nat :=
+  let idx := fun (i : Nat) => (t.items[i]?).getD 0
+  (sortPairsN (t.st.links.map fun p => (idx p.1, idx p.2)), sortNats (t.st.roots.map idx))
+
+def handle : List SExp → Option SExp
+  | .atom "tree" :: m :: cfgs :: seed :: rest => do
+      let m ← asMapper m
+      let cfgs ← asList asCfg cfgs
+      let seed ← asNat seed
+      let t := mkTables m cfgs
+      let env := Env.ofSeed seed
+      let input := List.range t.n
+      let modelE := buildTreeE t.subE t.klt env input
+      let pure' := buildTree { sub := t.sub, klt := t.klt } env input
+      let specOn := fun (o : Option (List (Nat × Nat) × List Nat)) =>
+        match o with
+        | some (ls, rs) => specCheck t.n t.trueSub ls rs
+        | none => false
+      let modelObs := modelE.map observe
+      let modelOut := match modelObs with
+        | some o => ofObs o
+        | none => raisedAssertion
+      let specImpl ← match rest with
+        | [impl] => do
+            let o ← asObs impl
+            pure (ofBool (specOn o))
+        | _ => pure none'
+      let hasse := ofObs (sortPairsN (coverPairs t.n t.trueSub), sortNats (minimalIdx t.n t.trueSub))
+      let agrees := input.all fun i => input.all fun j =>
+        i == j || (tab t.embM i j == tab t.embT i j && tab t.antiM i j == tab t.antiT i j)
+      let noMutual := input.all fun i => input.all fun j => i == j || !(tab t.embT i j && tab t.embT j i)
+      let pureEq := match modelE with
+        | some te => observe te == observe pure' && te.st == pure'.st
+        | none => true
+      pure (.list [.atom "ok", modelOut, ofBool (specOn modelObs), specImpl, hasse, ofBool agrees,
+                   ofBool (hypsOk t.n t.trueSub t.klt), ofBool noMutual, ofBool pureEq])
+  | _ => none
+
 end C07
